@@ -8,6 +8,7 @@ CONSTANTS
   HdrKinds = {}
   Statuses = {}
   RespBodyLens = {}
+  Retries = {}
   Defects = {}
 SPECIFICATION TraceSpec
 POSTCONDITION Accepted
